@@ -26,6 +26,10 @@ func suiteSerde(rn *runner, r *rng, tier string) {
 	var dstReuse *simdjson.ParsedJson
 	for i := 0; i < n; i++ {
 		cr := r.fork()
+		if i%12 == 5 {
+			dedupCase(rn, cr)
+			continue
+		}
 		cfg := defaultCfg(cr)
 		cfg.maxDepth = 1 + cr.intn(4)
 		nd := cr.chance(1, 3)
@@ -120,7 +124,65 @@ func suiteSerde(rn *runner, r *rng, tier string) {
 		c.tc.class = fmt.Sprintf("nd=%v/m=%d>%d/reuse=%d/edits=%d/%s", nd, m1, m2, reuseKind, nEdits, sizeClass(len(text)))
 		rn.addPrepared(c.tc)
 	}
-	rn.rep.Rule = "parse (+0-3 edits), Serialize in mode m1, Deserialize by a serializer in mode m2 (fresh or reused serializers and destination); expectations from the reference tree; distinct = (nd, modes, reuse, edits, size)"
+	rn.rep.Rule = "parse (+0-3 edits), Serialize in mode m1, Deserialize by a serializer in mode m2 (fresh or reused serializers and destination); expectations from the reference tree; every 12th case reuses one serializer for two documents built so that a string and a longer string with the same prefix collide in the de-duplication table while the first document left the rest of the longer one behind in the buffer; distinct = (nd, modes, reuse, edits, size)"
+}
+
+// dedupCase: one Serializer used twice. The second document holds a string x and, after it, a longer string t = x+tail
+// that falls into the same bucket of the de-duplication table as x; the first document left exactly `tail` behind in
+// the serializer's string buffer right after where x lands. A lookup that trusts anything beyond the live part of
+// the buffer takes t for already stored.
+func dedupCase(rn *runner, cr *rng) {
+	letters := func(n int) string {
+		b := make([]byte, n)
+		for i := range b {
+			b[i] = byte('a' + cr.intn(26))
+		}
+		return string(b)
+	}
+	x := letters(2 + cr.intn(7))
+	var t string
+	bx := simdjson.VerifStringBucket([]byte(x))
+	for tries := 0; tries < 2000000; tries++ {
+		cand := x + letters(1+cr.intn(8))
+		if simdjson.VerifStringBucket([]byte(cand)) == bx {
+			t = cand
+			break
+		}
+	}
+	if t == "" {
+		return
+	}
+	asKeys := cr.chance(1, 3)
+	doc1 := fmt.Sprintf("[%q]", t)
+	doc2 := fmt.Sprintf("[%q,%q,%q]", x, t, letters(3))
+	if asKeys {
+		doc2 = fmt.Sprintf("{%q:1,%q:2}", x, t)
+	}
+	c := &opsCase{r: cr, tc: &testCase{note: "serde-dedup"}, st: newStore()}
+	ser := simdjson.NewSerializer()
+	mode := modes[cr.intn(4)]
+	if out := c.emit("parse p1 0 1 " + hx([]byte(doc1))); !strings.HasPrefix(out, "ok") {
+		return
+	}
+	nextSerde = serdeOpts{m1: mode, m2: mode, s1: ser, s2: ser}
+	c.emit("serde q1 p1")
+	if out := c.emit("parse p 0 1 " + hx([]byte(doc2))); !strings.HasPrefix(out, "ok") {
+		return
+	}
+	c.pj = c.st.pjs["p"]
+	roots, err := refDecode(c.pj)
+	if err != nil {
+		return
+	}
+	nextSerde = serdeOpts{m1: mode, m2: mode, s1: ser, s2: ser}
+	c.emit("serde q p")
+	c.expectLast(fmt.Sprintf("ok %d", len(c.pj.Tape)))
+	c.emit("owalk q")
+	c.expectLast(ordRoots(roots))
+	c.emit("wf q")
+	c.expectLast("wf " + ordRoots(roots))
+	c.tc.class = fmt.Sprintf("dedup-collision/keys=%v/m=%d", asKeys, mode)
+	rn.addPrepared(c.tc)
 }
 
 // suiteBlob: corrupt and truncated serialized data; outcome and, when accepted, every walk.
